@@ -307,6 +307,8 @@ def execute(trace: dict) -> Result:
 
 def gen_step(rng, cfg, kind=None, allow_fault=True, tier="quick"):
     kind = kind or rng.choices(ENG_KINDS, weights=[6, 2, 1])[0]
+    if cfg.get("numpy_only"):
+        kind = "numpy"
     merging = cfg["merging_ramp"]
     op = {"op": "step", "eng": kind, "via": rng.choice(["explicit", "explicit", "default"]),
           "vals": rng.getrandbits(32), "opts": dyn.gen_opts(rng)}
@@ -337,6 +339,9 @@ def generate(prop: str, run_seed: int, tier: str = "quick") -> dict:
     rng = core.rng_of(run_seed)
     U = dyn.gen_dyn_universe(rng, ideal_origins=False, name_mode=rng.choice(["unique", "unique", "dup"]))
     topo = dyn.gen_dyn_topology(rng, U)
+    if rng.random() < 0.25:
+        # element parameters are caller-owned NumPy arrays (NumPy engine only in such runs)
+        U["param_arrays"] = rng.choice(["0d", "1d"])
     enabled = set()
     if rng.random() > 0.34:
         for f in ("interrupt", "alias", "sibling", "elem", "garbage"):
@@ -349,6 +354,7 @@ def generate(prop: str, run_seed: int, tier: str = "quick") -> dict:
         "merging_ramp": dyn.has_merging_ramp(topo, U),
         "sibling": "sibling" in enabled,
         "garbage": rng.choice(["empty", "rand", "randn", 7.5]) if "garbage" in enabled else "empty",
+        "numpy_only": bool(U.get("param_arrays")),
     }
     ops = []
     n = rng.randint(3, 9) if tier == "quick" else rng.randint(4, 14)
@@ -359,9 +365,10 @@ def generate(prop: str, run_seed: int, tier: str = "quick") -> dict:
         elif r < 0.72:
             ops.append({"op": "compile", "compact": rng.choice([0, 1, 2]), "more_out": rng.random() < 0.5, "pt": rng.getrandbits(16)})
         elif r < 0.80:
-            ops.append({"op": "use", "eng": rng.choice(ENG_KINDS)})
+            ops.append({"op": "use", "eng": "numpy" if cfg["numpy_only"] else rng.choice(ENG_KINDS)})
         elif r < 0.90 and "elem" in enabled:
-            ops.append({"op": "elem", "el": rng.choice([x for x in refs if x[0] in "lo"]), "eng": rng.choice(ENG_KINDS),
+            ops.append({"op": "elem", "el": rng.choice([x for x in refs if x[0] in "lo"]),
+                        "eng": "numpy" if cfg["numpy_only"] else rng.choice(ENG_KINDS),
                         "vals": rng.getrandbits(32), "step": rng.random() < 0.6, "opts": dyn.gen_opts(rng, allow_delta=False)})
         elif "sibling" in enabled:
             s = gen_step(rng, cfg, allow_fault=False, tier=tier)
@@ -372,7 +379,7 @@ def generate(prop: str, run_seed: int, tier: str = "quick") -> dict:
             ops.append(gen_step(rng, cfg, tier=tier))
     # quiescent phase: one complete probe step without faults (recovery)
     ops.append(gen_step(rng, cfg, kind="numpy", allow_fault=False, tier=tier))
-    if rng.random() < 0.35:
+    if rng.random() < 0.35 and not cfg["numpy_only"]:
         p = gen_step(rng, cfg, kind=rng.choice(["sx", "mx"]), allow_fault=False, tier=tier)
         p["check"] = True
         ops.append(p)
@@ -401,6 +408,9 @@ def simplify_op(op: dict):
 
 def simplify_trace(trace: dict):
     cfg = trace["cfg"]
+    if trace["universe"].get("param_arrays"):
+        u = dict(trace["universe"]); del u["param_arrays"]
+        yield dict(trace, universe=u)
     if cfg.get("sibling"):
         yield dict(trace, cfg=dict(cfg, sibling=False))
     if cfg.get("garbage") != "empty":
